@@ -812,7 +812,8 @@ class LLMRails:
         # If we have generation options, we prepare a GenerationResponse instance.
         if options:
             # If a prompt was used, we only need to return the content of the message.
-            if prompt:
+            # (the content of an exception message is not text: we return that message as it is)
+            if prompt and isinstance(new_message["content"], str):
                 res = GenerationResponse(response=new_message["content"])
             else:
                 res = GenerationResponse(response=[new_message])
